@@ -544,9 +544,11 @@ class FindOmega(_OmegaSolver):
         gd = vlist(gdir)
         a, b, c = gd[0], -gd[1], -st
         d = a * a + b * b
-        sq = T.sqrt(d - c * c)
-        s1, s2 = (b * c - a * sq) / d, (b * c + a * sq) / d
-        return [1, st, scale, 2 * st, s1, -s1, s2, -s2]
+
+        def s(sign_a, sign_all):
+            # lazy: sqrt(d - c^2) only exists inside the branch where the code takes it
+            return lambda: sign_all * (b * c + sign_a * a * T.sqrt(d - c * c)) / d
+        return [1, st, scale, 2 * st, s(-1, 1), s(-1, -1), s(1, 1), s(1, -1)]
 
     def ensures(self, gdir, scale, twoth, res):
         om = vlist(res)
@@ -604,3 +606,92 @@ class FindOmegaWedge(_OmegaSolver):
         for i in range(len(om)):
             # GrainSpotter sign of the wedge: Omega = Ry(-wedge) Rz(omega)
             yield from diffraction_clauses(i, mm(Ry(-wedge), Rz(om[i])), gs, twoth, om[i], eta[i])
+
+
+# ---------------------------------------------------------------------------
+# C03 -- inverse maps u_to_rod, u_to_euler (and the local _arctan2)
+
+@register(*BOTH)
+class UToRod(Contract):
+    name = 'u_to_rod'
+    signature = [('U_matrix', Rot())]
+
+    def requires(self, U):
+        Ue = entries(U)
+        yield 'is_rotation', is_rotation(U)
+        # rotation angle not within ~1e-6 of 180 degrees: 1 + trace = 2 + 2 cos(angle) >= 1e-12
+        yield 'not_half_turn', 1 + Ue[0][0] + Ue[1][1] + Ue[2][2] >= T.Fraction(1, 10 ** 12)
+
+    def result_spec(self, U):
+        Ue = entries(U)
+        t = 1 + Ue[0][0] + Ue[1][1] + Ue[2][2]
+        return NPM.array([(Ue[1][2] - Ue[2][1]) / t, (Ue[2][0] - Ue[0][2]) / t, (Ue[0][1] - Ue[1][0]) / t])
+
+    def ensures(self, U, r):
+        rr = vlist(r)
+        # inverts rod_to_u: the Rodrigues vector rebuilds the input matrix      (C03)
+        yield from named_mat_eq('rod_to_u_of_result_is_U', tr(rod_active(rr)), U)
+
+
+XY = Real(-1.5, 1.5, special=(0.0, 1e-9, -1e-9, 5e-9, 1.0, -1.0))
+
+
+@register(*BOTH)
+class Arctan2Local(Contract):
+    """_arctan2(y, x): the polar angle of (x, y) in (-pi, pi]"""
+    name = '_arctan2'
+    signature = [('y', XY), ('x', XY)]
+
+    def requires(self, y, x):
+        yield 'not_origin', x * x + y * y > 0
+
+    def result_spec(self, y, x):
+        return T.arctan2(y, x)
+
+    def sqrt_hints(self, y, x):
+        rho = T.sqrt(x * x + y * y)
+        return [rho / x, -rho / x, rho]
+
+    def ensures(self, y, x, th):
+        rho = T.sqrt(x * x + y * y)
+        yield 'cos', Eq(T.cos(th) * rho, x)
+        yield 'sin', Eq(T.sin(th) * rho, y)
+        yield 'range', conj(th > -PI(), th <= PI())
+
+
+@register(*BOTH)
+class UToEuler(Contract):
+    name = 'u_to_euler'
+    signature = [('U_matrix', Rot())]
+
+    def requires(self, U):
+        yield 'is_rotation', is_rotation(U)
+
+    def sign_hints(self, U):
+        Ue = entries(U)
+        r = T.acos_sin(Ue[2][2])
+        return [Ue[2][0] * Ue[2][0] + Ue[2][1] * Ue[2][1], Ue[0][2] * Ue[0][2] + Ue[1][2] * Ue[1][2],
+                r * r, Ue[1][2] * Ue[1][2] + Ue[2][2] * Ue[2][2], r]
+
+    def sqrt_hints(self, U):
+        Ue = entries(U)
+        return [T.acos_sin(Ue[2][2]), 1]
+
+    def ensures(self, U, ang):
+        a = vlist(ang)
+        Ue = entries(U)
+        p1, P, p2 = a[0], a[1], a[2]
+        yield 'range_phi1', conj(p1 >= 0, p1 <= 2 * PI())
+        yield 'range_PHI', conj(P >= 0, P <= PI())
+        yield 'range_phi2', conj(p2 >= 0, p2 <= 2 * PI())
+        Rb = mm(Rz(p1), mm(Rx(P), Rz(p2)))
+        if symbolic_mode():
+            tol = T.Fraction(1, 10 ** 8)
+            lock = Or(P < tol, P > PI() - tol)
+            if not T.ctx().feasible(T._bz(lock)):
+                # away from gimbal lock the angles rebuild U exactly
+                yield from named_mat_eq('rebuilds_U', Rb, U)
+            else:
+                T.ctx().notes.append('u_to_euler: gimbal-lock paths are covered by the bounded stand-in')
+        else:
+            yield from named_mat_eq('rebuilds_U', Rb, U, 1e-6 / 3)
